@@ -117,7 +117,17 @@ func cmdCheck(args []string) {
 		scan = append(scan, cf.Scan...)
 		for _, key := range cf.Order {
 			fc := cf.Funcs[key]
-			if !hasProp(fc.Props, *prop) || fc.Lemma || strings.HasPrefix(key, "iface ") {
+			if !hasProp(fc.Props, *prop) || strings.HasPrefix(key, "iface ") {
+				continue
+			}
+			if fc.Lemma {
+				res := prog.VerifyLemma(fc, cf, cf.PkgTypes.Name(), *tier)
+				results = append(results, res)
+				if res.Unsupported != "" || res.ContractErr != "" {
+					fmt.Printf("STALE-CONTRACT %s: %s%s\n", res.Name, res.Unsupported, res.ContractErr)
+					broken++
+				}
+				all = append(all, res.Obls...)
 				continue
 			}
 			if fc.Tier == "thorough" && *tier != "thorough" {
